@@ -22,6 +22,7 @@ import YataProofs.Indicators.TSIndRange
 import YataProofs.Indicators.StochRange
 import YataProofs.Indicators.Realises2
 import YataProofs.Indicators.CMFRun
+import YataProofs.Indicators.StochRun
 import YataProofs.Numeric.TSIRange
 import YataProofs.Numeric.MeanAbsDev
 namespace Yata.C12
@@ -163,6 +164,21 @@ theorem C12_cmf_reachable {P size : Nat} (k0 : Candle ℚ) (hk0 : goodCandle k0)
       ∀ o ∈ outs, ∃ num den κ1 κ2, o = [.quot num den κ1 κ2 .vol [] none] ∧ |num| ≤ den ∧
         (den ≠ 0 → -1 ≤ num / den ∧ num / den ≤ 1) := CMF.run_range k0 hk0 s0 h0 cs hg
 
+/-- Stochastic oscillator over whole streams, from its constructor, for EVERY pair of non-overshooting kinds (all but HMA,
+    DEMA, TEMA, LinReg) and lengths the constructors accept: on every stream of candles with low ≤ close ≤ high no step
+    panics and both lines are in [0, 1] at every step -/
+theorem C12_stochastic_run {P : Nat} (c : StochCfg) (k0 : Candle ℚ) (hv : Stoch.validate c = true) (hp : c.period ≤ P - 1)
+    (h1 : validLen P c.ma.kind c.ma.length) (h2 : validLen P c.signal.kind c.signal.length)
+    (s1 : smoothKind c.ma.kind = true) (s2 : smoothKind c.signal.kind = true)
+    (hk0 : k0.low ≤ k0.close ∧ k0.close ≤ k0.high) (cs : List (Candle ℚ)) (hcs : ∀ k ∈ cs, k.low ≤ k.close ∧ k.close ≤ k.high) :
+    ∃ s0 outs s', Stoch.init P c k0 = .ok s0 ∧ runM (fun s k => s.vals k none) s0 cs = .ok (outs, s') ∧ outs.length = cs.length ∧
+      ∀ o ∈ outs, ∃ v1 v2, o = [v1, v2] ∧ 0 ≤ v1.value ∧ v1.value ≤ 1 ∧ 0 ≤ v2.value ∧ v2.value ≤ 1 :=
+  Stoch.run_range c k0 hv hp h1 h2 s1 s2 hk0 cs hcs
+
+/-- every non-overshooting kind preserves the hull of the values it is given (the realised formula of the kind) -/
+theorem C12_every_smooth_kind_hull {P : Nat} (k : MAKind) (n : Nat) (v : ℚ) (hk : smoothKind k = true) (hv : validLen P k n) :
+    HullFn v (specOf k n v) := hullFn_of_kind k n v hk hv
+
 theorem C12_tr_nonneg (c : Candle ℚ) (p : ℚ) (h : c.low ≤ c.high) : 0 ≤ c.trClose p := tr_nonneg c p h
 
 theorem C12_clv_range (c : Candle ℚ) (h1 : c.low ≤ c.close) (h2 : c.close ≤ c.high) : -1 ≤ c.clv ∧ c.clv ≤ 1 :=
@@ -199,3 +215,5 @@ end Yata.C12
 #print axioms Yata.C12.C12_rsi_reachable
 #print axioms Yata.C12.C12_hull_kinds
 #print axioms Yata.C12.C12_cmf_reachable
+#print axioms Yata.C12.C12_stochastic_run
+#print axioms Yata.C12.C12_every_smooth_kind_hull
